@@ -43,27 +43,31 @@ def must_pass(an: Analysis, fn: FunctionInfo, target: Node, through: Callable[[N
     return path_avoiding(an, fn, s, lambda n: n is target, lambda n: through(n) and n is not target)
 
 
-def edge_dominates(an: Analysis, fn: FunctionInfo, test: Node, label, target: Node) -> bool:
-    """Every path entry -> target takes the edge (test, label)."""
+def edge_dominates(an: Analysis, fn: FunctionInfo, test: Node, label, target: Node, avoid=None) -> bool:
+    """Every path entry -> target (that stays clear of the nodes in *avoid*) takes the edge (test, label)."""
     g = an.cfg(fn)
     mr = oracle(an, fn)
     p = g.path(g.entry, lambda n: n is target, may_raise=mr,
-               edge_filter=lambda a, b, lbl: not (a is test and lbl == label))
+               edge_filter=lambda a, b, lbl: not (a is test and lbl == label),
+               stop=(lambda n: n in avoid and n is not target) if avoid else None)
     return p is None
 
 
-def dominating_guards(an: Analysis, fn: FunctionInfo, target: Node) -> List[Tuple[Node, bool]]:
-    """(test node, truth) pairs such that every path from entry to target takes that branch."""
+def dominating_guards(an: Analysis, fn: FunctionInfo, target: Node, avoid=None) -> List[Tuple[Node, bool]]:
+    """(test node, truth) pairs such that every path from entry to target takes that branch.  With *avoid*: every path
+    that does not pass one of those nodes -- "the paths on which this definition is still the live one"."""
     g = an.cfg(fn)
     out = []
     reach = reachable_from_entry(an, fn)
     if target not in reach:
         return out
+    if avoid and g.path(g.entry, lambda n: n is target, may_raise=oracle(an, fn), stop=lambda n: n in avoid and n is not target) is None:
+        return out      # no such path at all: nothing can be claimed
     for t in g.nodes:
         if t.kind != "test" or t not in reach:
             continue
         for lbl in (True, False):
-            if edge_dominates(an, fn, t, lbl, target):
+            if edge_dominates(an, fn, t, lbl, target, avoid):
                 out.append((t, lbl))
     return out
 
